@@ -83,6 +83,22 @@ def whole_runs(run, pid, tier, seed, n_quick=36):
     if quick and len(jobs) > n_quick:
         rnd.shuffle(jobs)
         jobs = jobs[:n_quick]
+    # generated kernels from the curated real vocabulary (few registers: many cycles, zero-latency moves
+    # inside cycles, unknown instructions) through the same CLI path
+    from harness import vocab
+    from harness import deps_common as dc
+
+    for isa, archs in (("x86", x86), ("aarch64", arm)):
+        for arch in archs:
+            for q in range(6 if quick else 40):
+                gp, vec = vocab.pools(isa, rnd, 2, 2)
+                instrs = [vocab.gen(isa, rnd, gp, vec) for _ in range(rnd.randint(2, 7))]
+                path = os.path.join(work, "gen_%s_%s_%d.s" % (isa, arch, q))
+                with open(path, "w") as fh:
+                    fh.write(dc.kernel_text(instrs))
+                fixed = rnd.random() < 0.3
+                jobs.append(("generated:%s:%d|%s|%s" % (isa, q, arch, "F" if fixed else "o"),
+                             ["--arch", arch] + (["--fixed"] if fixed else []) + [path], fixed, False, work))
     ctx = multiprocessing.get_context("fork")
     with concurrent.futures.ProcessPoolExecutor(12, mp_context=ctx) as pool:
         res = list(pool.map(_one, jobs))
